@@ -15,8 +15,13 @@ type KVGraph struct {
 	idx *kvindex.KVIndex
 	ts  *timestamp.Timestamp
 	// graphLock serialises AddGraph and DeleteGraph: both are sequences of
-	// separate writes (graph key, label-index fields, prefix deletes)
-	graphLock sync.Mutex
+	// separate writes (graph key, label-index fields, prefix deletes).
+	// DelVertex and DelEdge take it exclusively as well (they read what to
+	// delete and then delete it), the calls that add elements share it: an
+	// element written while its graph is re-created, or an edge written while
+	// one of its endpoints is deleted, would otherwise slip between the read
+	// and the write (an unindexed vertex, an edge of a vertex that is gone)
+	graphLock sync.RWMutex
 }
 
 // KVInterfaceGDB implements the GDB interface using a genertic key/value storage driver
